@@ -79,3 +79,10 @@ pub assume_specification[f64::trunc](f: f64) -> (r: f64) ensures r == f64_trunc(
 
 pub assume_specification<T: std::ops::Deref> [std::option::Option::<T>::as_deref] (o: &std::option::Option<T>) -> (r: std::option::Option<&<T as std::ops::Deref>::Target>)
     ensures r is Some <==> o is Some;
+// ASCII classification of characters / bytes (std; exact)
+pub assume_specification[char::is_ascii_digit](c: &char) -> (r: bool) ensures r == ('0' <= *c && *c <= '9');
+pub assume_specification[u8::is_ascii_digit](c: &u8) -> (r: bool) ensures r == (48 <= *c && *c <= 57);
+pub assume_specification[char::is_ascii_hexdigit](c: &char) -> (r: bool) ensures r == (('0' <= *c && *c <= '9') || ('a' <= *c && *c <= 'f') || ('A' <= *c && *c <= 'F'));
+pub assume_specification[char::is_ascii](c: &char) -> (r: bool) ensures r == ((*c as u32) < 128);
+pub assume_specification[u8::is_ascii](c: &u8) -> (r: bool) ensures r == (*c < 128);
+pub assume_specification[char::is_ascii_alphabetic](c: &char) -> (r: bool) ensures r == (('a' <= *c && *c <= 'z') || ('A' <= *c && *c <= 'Z'));
